@@ -49,7 +49,7 @@ Definition judge (k : c08case) : N :=
                               | Some m => match m_schema m with Some s => negb (g_enum true s) | None => false end
                               | None => false end
                   | None => false end in
-  let gc : N := if hdr_content then 1%N else if enum_bad then 3%N else if negb g then 2%N else 0%N in
+  let gc : N := if enum_bad then 3%N else if negb g then 2%N else 0%N in
   if agree then (if same then J_OK else if N.eqb gc 0 then J_DRIFT else J_NOTE)
   else if same && negb (N.eqb gc 0) then J_KNOWN gc
   else J_VIOL.
